@@ -1,7 +1,16 @@
 #!/bin/bash
+# Warm every build variant the checks use (each check rebuilds incrementally by itself).
 set -u
 ROOT="$VERIF_ROOT"
 B="$ROOT/.build"; mkdir -p "$B"
 fail=0
-( cd "$ROOT/mc" && CARGO_TARGET_DIR="$B/rel" cargo build --release --offline ) || fail=1
+b() { local v="$1"; shift; ( cd "$ROOT/mc" && CARGO_TARGET_DIR="$B/$v" "$@" ) >"$B/build_$v.log" 2>&1 || { echo "build of $v failed:"; tail -n 20 "$B/build_$v.log"; fail=1; }; }
+b rel cargo build --release --offline
+b dbg cargo build --profile dbg --offline
+b chk cargo build --release --offline --features index-positions,prohibit-unsafe
+b idx cargo build --release --offline --features index-positions
+b pro cargo build --release --offline --features prohibit-unsafe
+b u16 cargo build --release --offline --features utf16
+b u16dbg cargo build --profile dbg --offline --features utf16
+b nostd cargo build --release --offline --no-default-features --features nostd,pikevm
 exit $fail
